@@ -1,4 +1,4 @@
-import RscelModel.Model.Coll
+import RscelModel.Model.Builtins
 /-
 Line protocol: textual encoding of values / instructions shared with the Rust harness.
 Tokens are space separated.
@@ -222,5 +222,76 @@ def handleValOp (cmd : String) (args : List String) : Option String := do
   | "toint" => do let (a, _) ← parseVal args; match a with | .float b => pure s!"i:{F.toIntSat b}" | _ => none
   | "tonat" => do let (a, _) ← parseVal args; match a with | .float b => pure s!"u:{F.toNatSat b}" | _ => none
   | _ => none
+
+end Rscel.Wire
+
+namespace Rscel.Wire
+open Rscel
+
+/-- take `n` items with parser `p` -/
+partial def parseMany {α} (p : List String → Option (α × List String)) : Nat → List String → Option (List α × List String)
+  | 0, ts => some ([], ts)
+  | n + 1, ts => do
+    let (a, ts) ← p ts
+    let (as, ts) ← parseMany p n ts
+    pure (a :: as, ts)
+
+def parseParam : List String → Option ((Str × Val) × List String)
+  | k :: ts => do
+    let key ← strOfHex k
+    let (v, ts) ← parseVal ts
+    pure ((key, v), ts)
+  | [] => none
+
+def parseProg : List String → Option ((Str × List Instr) × List String)
+  | k :: ts => do
+    let key ← strOfHex k
+    let (v, ts) ← parseVal ts
+    match v with
+    | .code c => pure ((key, c), ts)
+    | _ => none
+  | [] => none
+
+def parseUser : List String → Option ((Str × UserFn) × List String)
+  | k :: "arg0" :: ts => do let key ← strOfHex k; pure ((key, .arg0), ts)
+  | k :: "const" :: ts => do
+    let key ← strOfHex k
+    let (v, ts) ← parseVal ts
+    pure ((key, .const v), ts)
+  | k :: "fail" :: e :: ts => do let key ← strOfHex k; let kind ← errOfName e; pure ((key, .fail kind), ts)
+  | _ => none
+
+def countOf (tag : String) (t : String) : Option Nat :=
+  let (a, p) := splitTag t
+  if a == tag then p.toNat? else none
+
+/-- `P:<n> (key val)* G:<n> (name code)* U:<n> (name kind)*` -/
+def parseEnv : List String → Option (Env × List String)
+  | p :: ts => do
+    let np ← countOf "P" p
+    let (params, ts) ← parseMany parseParam np ts
+    match ts with
+    | g :: ts => do
+      let ng ← countOf "G" g
+      let (progs, ts) ← parseMany parseProg ng ts
+      match ts with
+      | u :: ts => do
+        let nu ← countOf "U" u
+        let (users, ts) ← parseMany parseUser nu ts
+        -- later bindings win: `lookup` takes the first match, so reverse
+        pure ({ params := params.reverse, progs := progs.reverse, userFns := users.reverse }, ts)
+      | [] => none
+    | [] => none
+  | [] => none
+
+def showLog (l : Log) : String :=
+  String.intercalate " " (s!"L:{l.length}" :: l.map fun e =>
+    s!"{hexOfStr e.name} {showVal e.this} {showVal (.list e.args)}")
+
+def showOut (o : Out) : String :=
+  let r := match o.res with
+    | .ok v => showVal v
+    | .error a => s!"e:{a.kind.name}"
+  s!"{r} {showLog o.log}"
 
 end Rscel.Wire
